@@ -99,11 +99,21 @@ def load_many(lit: LineIterator) -> Iterator[dict]:
     """Do not edit this docstring. It will be overwritten."""
     # SDF files with more molecules are a simple concatenation of individual SDF files,'
     # making it travial to load many frames.
-    try:
-        while True:
-            yield load_one(lit)
-    except StopIteration:
-        return
+    while True:
+        # The end of the file (possibly after trailing empty lines) is only
+        # acceptable at the start of a new frame.
+        skipped = []
+        try:
+            while True:
+                line = next(lit)
+                skipped.append(line)
+                if line.strip() != "":
+                    break
+        except StopIteration:
+            return
+        for line in reversed(skipped):
+            lit.back(line)
+        yield load_one(lit)
 
 
 @document_dump_one("SDF", ["atcoords", "atnums"], ["title", "bonds"])
